@@ -75,8 +75,12 @@ Fixpoint enc (t : term) : eres :=
              else ebind (enc_all l) (fun bl => EOk (tag_list_ext :: be 4 (len l) ++ bl ++ [tag_nil_ext]))
       end
   | TImproper l tl =>
+      match l with
+      | [] => enc tl
+      | _ =>
       if 4294967296 <=? len l then EErr EListTooLarge
       else ebind (enc_all l) (fun bl => ebind (enc tl) (fun bt => EOk (tag_list_ext :: be 4 (len l) ++ bl ++ bt)))
+      end
   | TMap kvs =>
       if 4294967296 <=? len kvs then EErr EMapTooLarge
       else ebind ((fix gom (m : list (term * term)) : eres :=
